@@ -123,6 +123,8 @@ AnomTags(kind) ==
       [] kind \in {"listed_entity_not_viewable",
                    "listed_entity_not_borrowable"}                    -> <<"C01", "C06">>
       [] kind \in {"resolve_oob"}                                     -> <<"C03", "C01">>
+      [] kind \in {"components_get_mismatch", "components_get_mut_mismatch"} -> <<"C02">>
+      [] kind \in {"view_index_mismatch", "borrow_index_mismatch"}    -> <<"C02", "C06", "C01">>
       [] OTHER                                                        -> <<"TOOL">>
 AnomViol(ev, at) == {V(AnomTags(ev.anom[i][1]), at, ev.anom[i][1]) : i \in DOMAIN ev.anom}
 
@@ -196,6 +198,8 @@ ArchObsViol(w, wid, x, keep, at) ==
             {V(<<"C17">>, at, "created-event list differs from the creations since the last clear")})
     \cup If(Decl.events /\ "evd" \in DOMAIN x /\ (SeqSet(x.evd) # w.evd[a + 1] \/ ~NoDup(x.evd)),
             {V(<<"C17">>, at, "destroyed-event list differs from the destructions since the last clear")})
+    \cup If("dump" \in DOMAIN x /\ "av" \in DOMAIN x /\ x.av # x.dump.ver,
+            {V(<<"C09">>, at, "Archetype::version() differs from the version direct handles are checked against")})
     \cup (IF "dump" \in DOMAIN x THEN RepViol(w, wid, a, x, at) ELSE {})
 
 \* direct-handle records minted by the mint-all of this observation
